@@ -193,7 +193,12 @@ def handle : Handler := fun op inp impl =>
     if !(isNull (field impl "panic")) then
       { agree := false, holds := false, why := "panic: " ++ str (field impl "panic") } else
     if str (field impl "loadErr") != "" then
-      { agree := true, holds := true, nontrivial := false, cls := "load-error" } else
+      -- the suite set (ALL files given) or the configuration is not acceptable — e.g. two files define a
+      -- suite of the same name: the run must end and hand out nothing
+      let quiet := (arr (field impl "requests")).isEmpty && (arr (field impl "servers")).isEmpty
+      let ok := quiet && (bool (field impl "returned") || str (field impl "loadErr") == "not a cli scenario")
+      { agree := ok, holds := ok, nontrivial := str (field inp "layout") != "", cls := "load-error" ++ (if str (field inp "layout") != "" then ":" ++ str (field inp "layout") else ""),
+        why := if ok then "" else s!"the suites / configuration given are not acceptable ({str (field impl "loadErr")}), yet the run handed out {(arr (field impl "requests")).length} request(s), started {(arr (field impl "servers")).length} server record(s), returned {bool (field impl "returned")}" } else
     let mode := str (field inp "mode")
     let beh := str (field inp "behaviour")
     let run := (strList (field inp "run")).map split
@@ -317,7 +322,7 @@ def handle : Handler := fun op inp impl =>
     let dispAgree := maxS == 0 || (returned == (final.disp == .returned && pipeOK) && aliveAtRet.length == aliveCount final.threads)
     { agree := namesAgree && (if serverOK && !broke then sentNames == planNames else true) && batchesAgree && dispAgree && (selected.map (·.name) |>.map ("/".intercalate ·) |> sortStrings) == wantNames,
       holds := holds, nontrivial := reqs.length > 1 && wantNames.length < names.length || srvs.length > 1,
-      cls := (if isCli then "cli:" ++ str (field cli "maxServers") ++ (if withPort then ":port:" else ":") else "") ++ mode ++ ":" ++ beh ++ (if str (field inp "clientStopHow") != "" then ":client-" ++ str (field inp "clientStopHow") else ""),
+      cls := (if str (field inp "layout") != "" then "files-" ++ str (field inp "layout") ++ ":" else "") ++ (if isCli then "cli:" ++ str (field cli "maxServers") ++ (if withPort then ":port:" else ":") else "") ++ mode ++ ":" ++ beh ++ (if str (field inp "clientStopHow") != "" then ":client-" ++ str (field inp "clientStopHow") else ""),
       model := Json.mkObj [("selected", wantNames.length), ("batches", pl.length), ("maxAlive", alive)],
       why := if holds then "" else
         (if !once then s!"selected permutations not handed out exactly once: sent {sentNames.length} want {wantNames.length}; " else "") ++
